@@ -375,6 +375,6 @@ def r3_skip_count(L, repo, hl):
 
 def run(L, tier):
     repo = Repo(L.repo)
-    hl = r1_framing(L, repo)
-    r2_short_read(L, repo)
-    r3_skip_count(L, repo, hl)
+    hl = L.stage(r1_framing, L, repo)
+    L.stage(r2_short_read, L, repo)
+    L.stage(r3_skip_count, L, repo, hl)
